@@ -20,5 +20,5 @@ mk("m-c07-memo", {"C07": ["C07.F"]}, [(B + "inline/inline_ops.rs",
    "        if inlining_context\n            .ephemeral_context_mapping\n            .contains_node(&node)\n        {\n            if !node.get_operation().is_input() {\n                panic!(\"Logic error: non-input node is already processed\");\n            }\n            continue;\n        }\n        if caller_node.is_some() && inlining_context.context_mapping.contains_node(&node) {\n            continue;\n        }\n")],
    "memoisation: a body node already inlined once is skipped the second time")
 mk("m-c03-ot-unmask", {"C03": ["C03.M|<mpc::utils::ObliviousTransfer"]}, [(B + "mpc/utils.rs",
-   "        let masked_i1 = i1\n            .add(r1.clone())?\n            .nop()?", "        let masked_i1 = i1\n            .add(r1.subtract(r1.clone())?)?\n            .nop()?")],
-   "OT message 1 is masked with r1 - r1 (zero)")
+   "        let masked_i1 = i1\n            .add(r1.clone())?\n            .nop()?", "        let masked_i1 = i1\n            .nop()?")],
+   "OT message 1 is sent unmasked")
